@@ -56,13 +56,16 @@ Definition bond_between (m : mol) (a b : nat) : option bsym :=
   | None => None
   end.
 
+(* Two spellings of one molecule may place double bonds differently (Kekule forms) or write a ring aromatic:
+   adjacency together with the per-atom hydrogen count and charge (in the labels) fixes the constitution, so
+   bond orders as written are not compared *)
 Definition bond_class (o : option bsym) : nat :=
-  match o with None => 0 | Some BDouble => 2 | Some BTriple => 3 | Some BArom => 4 | Some _ => 1 end.
+  match o with None => 0 | Some _ => 1 end.
 
 Definition label_eqb (m1 m2 : mol) (i j : nat) : bool :=
   match nth_error (m_atoms m1) i, nth_error (m_atoms m2) j with
   | Some a, Some b =>
-      str_eqb (a_sym a) (a_sym b) && Bool.eqb (a_arom a) (a_arom b) && (a_chg a =? a_chg b)%Z
+      str_eqb (a_sym a) (a_sym b) && (a_chg a =? a_chg b)%Z
       && (total_h m1 i a =? total_h m2 j b) && (a_iso a =? a_iso b) && (degree m1 i =? degree m2 j)
   | _, _ => false
   end.
